@@ -304,6 +304,27 @@ def run(case, ctx):
         ctx.violation("components-changed-by-merge", "before (renamed) %r after %r; document %r"
                       % ([sorted(c) for c in want_c], [sorted(c) for c in got_c], lines))
         return
+    # ... and gfapy's own answers after the merge agree (asked before and after in the same process)
+    cc = call(ctx, "connected_components", g.connected_components)
+    def nm(x):
+        return x.name.replace("^", "") if (case.get("opts") or {}).get("enable_tracking") else x.name
+    if not cc.ok or sorted((frozenset(nm(x) for x in c) for c in cc.value), key=sorted) != got_c:
+        ctx.violation("components-answer-after-merge/connected_components",
+                      "%s; text model %r; document %r" % (cc.cls() if not cc.ok else [sorted(nm(x) for x in c) for c in cc.value],
+                                                          [sorted(c) for c in got_c], after))
+        return
+    for c in got_c[:3]:
+        sn = sorted(c)[0]
+        real = [x.name for x in g.segments if nm(x) == sn]
+        if len(real) != 1:
+            continue
+        sc = call(ctx, "segment_connected_component", g.segment_connected_component, real[0])
+        ctx.count("component_answers_after_merge")
+        if not sc.ok or frozenset(nm(x) for x in sc.value) != c:
+            ctx.violation("components-answer-after-merge/segment_connected_component",
+                          "of %s: %s; text model %r; document %r"
+                          % (sn, sc.cls() if not sc.ok else sorted(x.name for x in sc.value), sorted(c), after))
+            return
     # merging again changes nothing
     t1 = O.safe_str(g)
     m2 = call(ctx, "merge_linear_paths", g.merge_linear_paths)
